@@ -1,6 +1,7 @@
 /-
   C16 — property theorems only.  Persistence storages round-trip, purge completely, isolate, and
-  generate annotation names that are stable, and — under the stated guards only — valid and distinct.
+  generate annotation names that are stable, valid (`Props/C16_Keys.lean`, full since kopf c2cffd8),
+  and — under the stated guards only — distinct.
 
   All theorems quantify over ALL handler ids `k : List Char`, ALL records / essences, ALL bodies
   and ALL (well-formed, i.e. unique-key) patches already accumulated in the cycle; `env.sfx`
@@ -522,7 +523,7 @@ theorem isolation_touch_ann (env : Env) (c : AnnCfg) (body patch0 patch' value :
 
 /-- name-level composition: storing `k` does not change what a handler `k'` with disjoint
     *names* (none of them the marker) reads. The step from distinct *ids* to disjoint names is
-    `isolation_ids_short` / `_long` / `_v1_hashed` in `Props/C16_Keys.lean`. -/
+    `isolation_ids_short_partial` / `_reformed_partial` / `_v1_hashed_partial` in `Props/C16_Keys.lean`. -/
 theorem isolation_other_handler (env : Env) (c : AnnCfg) (body patch0 patch' : J) (k k' : Str) (r : Rec)
     (hw : wf patch0 = true) (hs : MarkStable patch0)
     (h : annStore env c body patch0 k r = .ok patch')
